@@ -173,6 +173,44 @@ theorem registered_template_without_tags_renders_to_itself (r : Registry) (fs : 
     simp only [Registry.renderResolved, hdev, Bool.not_false, ↓reduceIte]
     exact render_single_raw _ data _ s hne _ rfl
 
+/-! ### the escape `\{{` : a literal `{{`, and the text after it stays text -/
+
+/-- the quoting of the property: every `{{` of the text written as `\{{` -/
+abbrev quote := PlainText.quote
+/-- the property's quantifier: no backslash immediately before a `{{` -/
+abbrev noEscBrace := PlainText.noEscBrace
+
+/-- for EVERY non-empty text without a backslash immediately before a `{{`, `quote s` compiles to
+    RawString(s): each `\{{` is one `escape` pair inside ONE raw_text pair (Lemmas/QuotedText:
+    `parse_quoted`), and `raw_string` removes exactly the inserted backslashes -/
+theorem compile_quoted (s : Str) (opts : TemplateOptions) (hne : s ≠ []) (hs : noEscBrace s) :
+    compile2 (quote s) opts = .ok (.mk opts.name [.raw s] [(1, 1)]) :=
+  PlainText.compile_quoted s opts hne hs
+
+/-- **render(quote s) = s** for any data: the first two clauses of the property at full strength and at
+    source level – any text, braces and `{{` included, is reproduced verbatim once its `{{` are escaped -/
+theorem quoted_text_renders_verbatim (r : Registry) (fs : FS) (s : Str) (data : Json)
+    (hdev : r.dev = false) (hs : noEscBrace s) :
+    r.renderTemplate fs (quote s) data = .ok s := by
+  unfold Registry.renderTemplate Registry.renderTemplateToWrite Registry.renderTemplateWithContextToWrite
+    Registry.compileForRenderTemplate
+  by_cases hne : s = []
+  · subst hne
+    have : quote [] = [] := rfl
+    rw [this, compile_empty]
+    simp only [Registry.renderResolved, hdev, Bool.not_false, ↓reduceIte]
+    exact render_empty_template r data none _
+  · rw [compile_quoted s _ hne hs]
+    simp only [Registry.renderResolved, hdev, Bool.not_false, ↓reduceIte]
+    exact render_single_raw r data none s hne _ rfl
+
+/-- non-vacuity: a text with `{{`, `{{{`, `}}`, a lone backslash and a backslash before a single brace -/
+example : noEscBrace ['a', '{', '{', 'x', '}', '}', '{', '{', '{', '\\', 'b', '\\', '{', 'c'] ∧
+    quote ['a', '{', '{', 'x'] = ['a', '\\', '{', '{', 'x'] := by
+  constructor
+  · simp [noEscBrace, PlainText.noEscBrace]
+  · rfl
+
 /-- non-vacuity: the hypothesis holds of a string with a lone brace, a backslash before a brace, quotes,
     line breaks and non-ASCII -/
 example : noOpen ['a', '{', 'b', '\\', '{', '"', '\n', '}', 'é', '\r', '{'] := by
